@@ -621,6 +621,30 @@ def extras(only=None):
         except Exception as ex:  # noqa: BLE001
             rec['oracle'] = 'callable objects with a false truth value as components: raised %s: %s' % (type(ex).__name__, ex)
         out.append(rec)
+    # weights of other numeric kinds than Python numbers / float64: NumPy integer and narrow float scalars (a list made from an array),
+    # fractions -- the property quantifies over every weight vector
+    import fractions
+    kinds = [('np.int64', [np.int64(3), np.int64(0), np.int64(-2)]), ('np.float32', [np.float32(0.5), np.float32(-1.25), np.float32(2.0)]),
+             ('np.int32+float', [np.int32(2), 0.25, np.int32(-1)]), ('Fraction', [fractions.Fraction(1, 2), fractions.Fraction(-3, 4), fractions.Fraction(2)])]
+    for k, (kname, ws) in enumerate(kinds):
+        name = 'weight-kinds-%d' % k
+        if only and only != name:
+            continue
+        vals = [2.0, -4.0, 0.5]
+
+        def cf(v):
+            return lambda x: v
+        want = 0
+        for w, v in zip(ws, vals):
+            want += w * v
+        rec = {'name': name, 'okey': 'weight-kinds', 'input': {'weight kind': kname, 'weights': [repr(w) for w in ws], 'component values': vals}, 'oracle': None}
+        try:
+            got = WeightedFunction(functions=[cf(v) for v in vals], weights=list(ws)).pointer(x)
+            if got != want:
+                rec['oracle'] = '%s weights %r: value %r, the sum of weight times component value is %r' % (kname, ws, got, want)
+        except Exception as ex:  # noqa: BLE001
+            rec['oracle'] = '%s weights %r are rejected / fail with %s: %s' % (kname, ws, type(ex).__name__, str(ex)[:100])
+        out.append(rec)
     # SCALE: hundreds of components (a fixed-size buffer, an index type, a threshold that switches to a vectorised path)
     for k, n in enumerate([200, 1025]):
         name = 'many-components-%d' % k
